@@ -1,10 +1,64 @@
-"""setup: validate the torch stand-in against the real torch build (placeholder, extended later)."""
+"""setup / self-test: validate the torch stand-in against the real torch build.
+
+Runs vlib.shimval in two subprocesses -- once on the real torch, once on the stand-in in concrete mode -- and
+compares operation results (values, dtypes, raised-or-not, aliasing) and whole optimizer trajectories."""
+from __future__ import annotations
+
+import json
+import os
+import subprocess
 import sys
+
+ROOT = os.path.dirname(os.path.dirname(os.path.abspath(__file__)))
+PY = os.path.join(ROOT, ".venv", "bin", "python")
+
+
+def _run(shim, *args):
+    env = dict(os.environ)
+    env["PYTHONPATH"] = (f"{ROOT}/symtorch:" if shim else "") + f"{ROOT}:/repo"
+    p = subprocess.run([PY, "-m", "vlib.shimval", *args], env=env, capture_output=True, text=True, timeout=600)
+    if p.returncode != 0:
+        raise RuntimeError(f"shimval failed ({'stand-in' if shim else 'real'}): {p.stderr[-800:]}")
+    return json.loads(p.stdout.strip().splitlines()[-1])
+
+
+def _close(a, b, tol):
+    if isinstance(a, dict) and isinstance(b, dict):
+        return set(a) == set(b) and all(_close(a[k], b[k], tol) for k in a)
+    if isinstance(a, list) and isinstance(b, list):
+        return len(a) == len(b) and all(_close(x, y, tol) for x, y in zip(a, b))
+    if isinstance(a, (int, float)) and isinstance(b, (int, float)) and not isinstance(a, bool) and not isinstance(b, bool):
+        if a != a and b != b:
+            return True
+        return abs(a - b) <= tol * (1 + abs(a) + abs(b))
+    return a == b
+
+
+def compare(n_traj=12, seed=0):
+    """Returns (n_scenarios, n_trajectories, list of mismatches)."""
+    from concurrent.futures import ThreadPoolExecutor
+
+    with ThreadPoolExecutor(2) as ex:
+        fr = ex.submit(_run, False, "both", str(n_traj), str(seed))
+        fs = ex.submit(_run, True, "both", str(n_traj), str(seed))
+        R, S = fr.result(), fs.result()
+    real, shim = R["ops"], S["ops"]
+    bad = []
+    for k in sorted(set(real) | set(shim)):
+        if k not in real or k not in shim or not _close(real[k], shim[k], 1e-6):
+            bad.append(f"op {k}: real={json.dumps(real.get(k))[:160]} stand-in={json.dumps(shim.get(k))[:160]}")
+    for a, b in zip(R["traj"], S["traj"]):
+        if not _close(a, b, 1e-7):
+            bad.append(f"trajectory case {a.get('case')}: real={json.dumps(a)[:200]} stand-in={json.dumps(b)[:200]}")
+    return len(real), len(R["traj"]), bad
 
 
 def main():
-    print("setup ok")
-    return 0
+    n, t, bad = compare()
+    for b in bad:
+        print("MISMATCH", b)
+    print(f"stand-in validation: {n} operation scenarios, {t} optimizer trajectories, {len(bad)} mismatches")
+    return 1 if bad else 0
 
 
 if __name__ == "__main__":
